@@ -444,7 +444,9 @@ C11_UidGuard ==
 \* when reconciling some children failed -- unless the parent is gone/replaced or the write
 \* itself met a fault or a conflict (tolerated, C12)
 C11_Written ==
-  (IsEv("SyncEnd") /\ IsComposite /\ E.a \in DOMAIN ctx /\ ctx[E.a].active /\ Reached(ctx[E.a]) /\ ~ctx[E.a].claimFail)
+  (IsEv("SyncEnd") /\ IsComposite /\ E.a \in DOMAIN ctx /\ ctx[E.a].active /\ Reached(ctx[E.a]) /\ ~ctx[E.a].claimFail
+     \* a failed ControllerRevision write aborts the sync BEFORE children are reconciled (C09): not "as far as reconciling children"
+     /\ ~ctx[E.a].revFailed)
   => LET c == ctx[E.a]  live == Lookup(store, ParentKeyOf(c)) IN
      \/ ~live.live \/ live.uid # c.parent.uid
      \/ c.statusConflict \/ c.parentGone
@@ -803,7 +805,9 @@ CtxAfterReq(c, e) ==
         !.adopted = IF Accepted(e) /\ IsOwnedKind(e) /\ IsAdoption(e, c) THEN @ \cup {Key(e)} ELSE @,
         !.released = IF Accepted(e) /\ IsOwnedKind(e) /\ IsRelease(e, c) THEN @ \cup {Key(e)} ELSE @,
         !.issued = IF childMut /\ c.nHooks > 0 THEN @ \cup {<<e.verb, Key(e)>>} ELSE @,
-        !.childWrites = IF childMut THEN @ + 1 ELSE @,
+        \* before the hook call the controller only adopts and releases; a REJECTED attempt of that phase changes nothing
+        \* (and cannot be told from its post-state), so it is not a child write
+        !.childWrites = IF childMut /\ (Accepted(e) \/ c.nHooks > 0) THEN @ + 1 ELSE @,
         !.childReqs = IF IsChildReq(e) /\ e.verb \in WriteVerbs THEN @ + 1 ELSE @,
         !.childWritesAfterHook = IF childMut /\ c.nHooks > 0 THEN @ + 1 ELSE @,
         !.revWrites = IF revMut THEN @ + 1 ELSE @,
